@@ -16,6 +16,8 @@ Skeleton == {
   D(<<"d", "sub">>), F(<<"d", "sub", "z.slice">>, "slice"), F(<<"d", "sub", "noext">>, "slice"),
   L(<<"d", "lb.slice">>, <<"..", "b.slice">>), L(<<"d", "sub", "up">>, <<"..", "..", "e">>),
   D(<<"e">>),
+  \* the extension is ".slice" as written: other letter cases are other extensions (skipped below a directory, an error as a source)
+  F(<<"UP.SLICE">>, "slice"), F(<<"d", "Mixed.Slice">>, "slice"), F(<<"d", "sub", "v.SLICE">>, "slice"), F(<<"g", "w.sLICE">>, "slice"),
   D(<<"g">>), F(<<"g", "w.slice">>, "slice"), F(<<"g", "bad2.slice">>, "bad"),
   \* directories whose own name ends in ".slice": still directories (an error as a source, walked as a reference)
   D(<<"pkg.slice">>), F(<<"pkg.slice", "in.slice">>, "slice"), D(<<"d", "sub", "deep.slice">>), F(<<"d", "sub", "deep.slice", "v.slice">>, "slice"),
@@ -28,12 +30,12 @@ AllSpellings == {
   <<"a.slice">>, <<".", "a.slice">>, <<"d", "..", "a.slice">>, <<"ROOT", "a.slice">>, <<"la.slice">>, <<"b.slice">>, <<"d", "lb.slice">>,
   <<"c.txt">>, <<"noext">>, <<"lnk">>, <<"d">>, <<"ld">>, <<"d", "sub">>, <<"e">>, <<"dangling.slice">>, <<"missing.slice">>, <<"bad.slice">>,
   <<"d", "x.slice">>, <<"ld", "x.slice">>, <<"g">>, <<"d", "sub", "..", "y.slice">>, <<"ROOT", "d">>, <<"d", "sub", "up">>,
-  <<"pkg.slice">>, <<"pkg.slice", "in.slice">>
+  <<"pkg.slice">>, <<"pkg.slice", "in.slice">>, <<"UP.SLICE">>, <<"d", "Mixed.Slice">>
 }
 \* a covering subset for the quick tier: every kind of argument, several spellings of one file
 SomeSpellings == {
   <<"a.slice">>, <<"d", "..", "a.slice">>, <<"la.slice">>, <<"b.slice">>, <<"c.txt">>, <<"lnk">>, <<"d">>, <<"ld">>, <<"d", "sub">>, <<"e">>,
-  <<"dangling.slice">>, <<"missing.slice">>, <<"bad.slice">>, <<"ld", "x.slice">>, <<"g">>, <<"ROOT", "a.slice">>, <<"pkg.slice">>
+  <<"dangling.slice">>, <<"missing.slice">>, <<"bad.slice">>, <<"ld", "x.slice">>, <<"g">>, <<"ROOT", "a.slice">>, <<"pkg.slice">>, <<"UP.SLICE">>
 }
 \* few spellings, longer lists: a file named twice with another argument in between, in either list
 DupSpellings == { <<"a.slice">>, <<"d", "..", "a.slice">>, <<"b.slice">>, <<"d">> }
